@@ -125,7 +125,9 @@ def code_dependencies_outputs(code: Sequence[ast.AST]) -> Tuple[Set[str], Set[st
                     elif isinstance(child.ctx, ast.Store):
                         node_created.add(child.id)
                     else:
-                        # Del
+                        # Del, which needs the name to be bound
+                        if child.id not in node_created and child.id not in created_names:
+                            node_needed.add(child.id)
                         node_created.discard(child.id)
                         created_names.discard(child.id)
 
